@@ -38,6 +38,8 @@ struct Enc<'a> {
     last_addr: usize,
     /// encoder policy: 0 = always the widest/plain forms, 1 = random valid forms, 2 = most compact forms
     policy: u8,
+    /// push every output as far towards the root as possible (what the crate's builder does; get_key relies on it)
+    canonical_outputs: bool,
 }
 
 impl<'a> Enc<'a> {
@@ -70,7 +72,7 @@ impl<'a> Enc<'a> {
                 let (_, c) = stack[top].kids[stack[top].next];
                 let base = stack[top].base;
                 let room = self.tr[c].min - base;
-                let o = match self.rng.below(3) {
+                let o = match if self.canonical_outputs { 1 } else { self.rng.below(3) } {
                     0 => 0,
                     1 => room,
                     _ => {
@@ -188,6 +190,10 @@ impl<'a> Enc<'a> {
 
 /// Encode `model` (sorted, unique keys) as a version `version` file of type `ty`.
 pub fn encode(model: &Kv, version: u64, ty: u64, policy: u8, rng: &mut Rng) -> Vec<u8> {
+    encode_with(model, version, ty, policy, false, rng)
+}
+
+pub fn encode_with(model: &Kv, version: u64, ty: u64, policy: u8, canonical_outputs: bool, rng: &mut Rng) -> Vec<u8> {
     let mut tr = vec![T::default()];
     for (k, v) in model {
         let mut n = 0;
@@ -214,7 +220,7 @@ pub fn encode(model: &Kv, version: u64, ty: u64, policy: u8, rng: &mut Rng) -> V
         out.push(0);
         out.len() - 1
     } else {
-        let mut e = Enc { tr, version, out, rng, memo: HashMap::new(), last_addr: 1, policy };
+        let mut e = Enc { tr, version, out, rng, memo: HashMap::new(), last_addr: 1, policy, canonical_outputs };
         let r = e.encode(0);
         out = e.out;
         r
